@@ -1,27 +1,59 @@
 #!/usr/bin/env python3
-"""tools/gen_sweep_table.py : rewrite the table of DESIGN.md 8.6 from seeded/SWEEP.txt and seeded/*/meta.json."""
+"""tools/gen_sweep_table.py : rewrite the two seed tables of DESIGN.md (8.6 round 1, 8.6b round 2) from seeded/SWEEP_ALL.txt
+(the last sweep of all seeds, on scratch copies of the final tree), seeded/SWEEP2.txt (round 2 as first met, before the checks
+were extended) and seeded/*/meta.json."""
 import json, os, re
 V = os.path.dirname(os.path.dirname(os.path.abspath(__file__)))
-rows = {}
-for line in open(os.path.join(V, "seeded/SWEEP.txt")):
-    m = re.match(r"(C\d\d-\d) check=(C\d\d) exit=(\d) violations=(\d+) with-replayed-input=(\d+) first=(.*)", line.strip())
-    if m:
-        rows.setdefault(m.group(1), []).append(m.groups()[1:])
-out = ["| seed | what it changes (short) | caught by | first reported obligation / stand-in | violations reported (of which with a failing input replayed on the real code) |", "|---|---|---|---|---|"]
-for sid in sorted(rows):
+LINE = re.compile(r"(C\d\d-\d) check=(C\d\d) exit=(\d) violations=(\d+) with-replayed-input=(\d+) first=(.*)")
+
+
+def read(fn):
+    rows = {}
+    p = os.path.join(V, "seeded", fn)
+    if not os.path.exists(p):
+        return rows
+    for line in open(p):
+        m = LINE.match(line.strip())
+        if m:
+            rows.setdefault(m.group(1), []).append(m.groups()[1:])
+    return rows
+
+
+def what(sid):
     meta = json.load(open(os.path.join(V, "seeded", sid, "meta.json")))
-    what = meta.get("what_changed", "").replace("|", "/").replace("\n", " ")
-    what = what[:150] + ("..." if len(what) > 150 else "")
-    caught = [r for r in rows[sid] if r[1] == "1"]
+    t = (meta.get("what_changed") or "").replace("|", "/").replace("\n", " ")
+    return t[:150] + ("..." if len(t) > 150 else "")
+
+
+def caught_cell(rs):
+    caught = [r for r in rs if r[1] == "1"]
     if not caught:
-        out.append(f"| {sid} | {what} | **not caught** | - | - |")
-        continue
+        und = [r for r in rs if r[1] == "2"]
+        return ("**not reported**" + (" (undecided: " + ", ".join(r[0] for r in und) + ")" if und else ""), "-", "-")
     first = caught[0][4].split(".json")[0].split("/", 1)[-1][:110]
-    out.append(f"| {sid} | {what} | " + ", ".join(f"`./check {r[0]}`" for r in caught) + f" | `{first}` | " + "; ".join(f"{r[0]}: {r[2]} ({r[3]})" for r in caught) + " |")
+    return (", ".join(f"`./check {r[0]}`" for r in caught), f"`{first}`", "; ".join(f"{r[0]}: {r[2]} ({r[3]})" for r in caught))
+
+
+final, first2 = read("SWEEP_ALL.txt"), read("SWEEP2.txt")
+t1 = ["| seed | what it changes (short) | caught by | first reported obligation / stand-in | violations reported (of which with a failing input replayed on the real code) |", "|---|---|---|---|---|"]
+t2 = ["| seed | what it changes (short) | as first met (checks as they were) | after the extensions: caught by | first reported obligation / stand-in | violations (with replayed input) |", "|---|---|---|---|---|---|"]
+for sid in sorted(final):
+    c = caught_cell(final[sid])
+    if sid[-1] in "12":
+        t1.append(f"| {sid} | {what(sid)} | {c[0]} | {c[1]} | {c[2]} |")
+    else:
+        f = caught_cell(first2.get(sid, []))
+        t2.append(f"| {sid} | {what(sid)} | {f[0]} | {c[0]} | {c[1]} | {c[2]} |")
 p = os.path.join(V, "DESIGN.md")
 s = open(p).read()
-a = s.index("| seed | what it changes (short) |")
+a = s.index("| seed | what it changes (short) | caught by |")
+b = s.index("### 8.6b ")
+s = s[:a] + "\n".join(t1) + "\n\n" + s[b:]
+a = s.index("| seed | what it changes (short) | as first met")
 b = s.index("### 8.7 ")
-s = s[:a] + "\n".join(out) + "\n\n" + s[b:]
+s = s[:a] + "\n".join(t2) + "\n\n" + s[b:]
 open(p, "w").write(s)
-print(len(out) - 2, "rows;", sum(1 for l in out if "not caught" in l), "not caught")
+n1 = sum(1 for l in t1[2:] if "not reported" not in l)
+n2 = sum(1 for l in t2[2:] if "not reported" not in l.split("|")[4])
+nf = sum(1 for l in t2[2:] if "not reported" not in l.split("|")[3])
+print(f"round 1: {n1}/{len(t1) - 2} reported; round 2: first met {nf}/{len(t2) - 2}, now {n2}/{len(t2) - 2}")
